@@ -43,6 +43,7 @@ impl Controller for FormUrlEncodedEnctypePostMethodController {
                     content_type: MimeType::TEXT_PLAIN.to_string(),
                 }
             ];
+            return response;
         }
 
         // direct unwrap due to prior utf-8 encoding check
@@ -105,6 +106,7 @@ impl FormUrlEncodedEnctypePostMethodController {
                   content_type: MimeType::TEXT_PLAIN.to_string(),
               }
             ];
+            return response;
         }
 
         // direct unwrap due to prior utf-8 encoding check
